@@ -52,10 +52,41 @@ fn enc_slots<T: ShortMessage>(slots: &[Option<T>; 4], obs: &mut Vec<i64>) {
 }
 
 pub fn run_ops(sc: &mut ParameterNumberMessageScanner, ops: &[i64], obs: &mut Vec<i64>) -> bool {
+    let mut prev = [0i64, 248, 0, 0];
     for op in ops.chunks(4) {
         if op.len() < 4 {
             break;
         }
+        if op[0] == 9 {
+            // the previous operation op[1] (>= 2) more times; observed: the first and the last
+            // of these applications (the model applies it twice: it is stable from then on)
+            let p = prev;
+            if matches!(p[0], 2 | 8 | 10) {
+                obs.extend_from_slice(&enc_pn(&None));
+                obs.extend_from_slice(&enc_pn(&None));
+                continue;
+            }
+            let first = region(|| with_msg(p[0], p[1], p[2], p[3], &mut |m| m.feed_pn(sc)));
+            let n = op[1].max(2) - 1;
+            let last = region(|| {
+                with_msg(p[0], p[1], p[2], p[3], &mut |m| {
+                    let mut l = None;
+                    for _ in 0..n {
+                        l = m.feed_pn(sc);
+                    }
+                    l
+                })
+            });
+            match (first, last) {
+                (Some(a), Some(b)) => {
+                    obs.extend_from_slice(&enc_pn(&a));
+                    obs.extend_from_slice(&enc_pn(&b));
+                }
+                _ => return false,
+            }
+            continue;
+        }
+        prev = [op[0], op[1], op[2], op[3]];
         let r = match op[0] {
             2 => region(|| {
                 for _ in 0..=op[1] {
@@ -422,6 +453,33 @@ pub fn gen_c11(tier: Tier, seed: u64, em: &mut Emitter) {
         em.emit_k("random", 110, inp);
     }
     real_time_records(110, tier, &mut r, em);
+    giant_repeat_records(110, &mut r, em);
+}
+
+/// One operation repeated very many times (op kind 9): 70 000 times in the checked builds, more
+/// than 2^24 times in the optimised ones -- thresholds and counters far beyond what an explicit
+/// history can hold.
+pub fn giant_repeat_records(tag: i64, r: &mut Rng, em: &mut Emitter) {
+    let n: i64 = if cfg!(debug_assertions) { 70_000 } else { (1 << 24) + 5 };
+    let c = r.below(16) as i64;
+    let s = 176 + c;
+    let b = |r: &mut Rng| r.below(128) as i64;
+    let (x, y, l, m) = (b(r), b(r), b(r), b(r));
+    let hs: Vec<Vec<i64>> = vec![
+        // a number byte very often, then the rest of the selection and a 14-bit value
+        vec![0, s, 99, x, 9, n, 0, 0, 0, s, 98, y, 0, s, 38, l, 0, s, 6, m],
+        vec![0, s, 101, x, 0, s, 100, y, 9, n, 0, 0, 0, s, 38, l, 0, s, 6, m, 0, s, 96, 1],
+        // a data entry LSB very often, then the MSB
+        vec![0, s, 99, x, 0, s, 98, y, 0, s, 38, l, 9, n, 0, 0, 0, s, 6, m],
+        // a data entry MSB / an increment very often, then a pair
+        vec![0, s, 99, x, 0, s, 98, y, 0, s, 6, m, 9, n, 0, 0, 0, s, 38, l, 0, s, 6, m],
+        vec![0, s, 101, x, 0, s, 100, y, 0, s, 97, 1, 9, n, 0, 0, 0, s, 38, l, 0, s, 6, m],
+        // an unrelated message very often in the middle of a sequence
+        vec![0, s, 99, x, 0, s, 98, y, 0, s, 38, l, 0, s, 7, 1, 9, n, 0, 0, 0, s, 6, m],
+    ];
+    for h in hs {
+        em.emit_k("one operation repeated very many times", tag, h);
+    }
 }
 
 /// The non-polling scanner has no notion of time: real time passing between two feeds (a sleep
